@@ -5,6 +5,7 @@ package main
 
 import (
 	"fmt"
+	"hash/fnv"
 	"math/big"
 	"math/bits"
 	"strings"
@@ -66,8 +67,10 @@ func (g *c20PrimeGen) next(b int, nthRoot uint64, dir int) uint64 {
 	}
 }
 
-func c20NewPS(logN int, Q, P []uint64) (*c20PS, error) {
-	lit := rlwe.ParametersLiteral{LogN: logN, Q: Q, NTTFlag: true}
+func c20NewPS(logN int, Q, P []uint64) (*c20PS, error) { return c20NewPSFlag(logN, Q, P, true) }
+
+func c20NewPSFlag(logN int, Q, P []uint64, ntt bool) (*c20PS, error) {
+	lit := rlwe.ParametersLiteral{LogN: logN, Q: Q, NTTFlag: ntt}
 	if len(P) > 0 {
 		lit.P = P
 	}
@@ -504,4 +507,78 @@ func (ps *c20PS) extProdNoiseBound(lq, lp int, digitSum *big.Int, sL1 int64) *bi
 		b.Add(b, big.NewInt((1+sL1)/2+2))
 	}
 	return b
+}
+
+// ---------- snapshots (input-unchanged probes) ----------
+
+type c20Hasher struct{ h uint64 }
+
+func (x *c20Hasher) poly(p ring.Poly) {
+	f := fnv.New64a()
+	var b [8]byte
+	for _, row := range p.Coeffs {
+		for _, v := range row {
+			for i := 0; i < 8; i++ {
+				b[i] = byte(v >> (8 * i))
+			}
+			f.Write(b[:])
+		}
+		f.Write([]byte{0xff})
+	}
+	x.h = x.h*1099511628211 ^ f.Sum64()
+}
+
+// c20SnapCt: every limb of every polynomial, and the metadata, of an RLWE ciphertext.
+func c20SnapCt(ct *rlwe.Ciphertext) string {
+	var x c20Hasher
+	for _, p := range ct.Value {
+		x.poly(p)
+	}
+	md := "nil"
+	if ct.MetaData != nil {
+		md = fmt.Sprintf("%+v", *ct.MetaData)
+	}
+	return fmt.Sprintf("%d/%d/%x/%s", len(ct.Value), ct.Level(), x.h, md)
+}
+
+func c20SnapGadget(x *c20Hasher, g *rlwe.GadgetCiphertext) {
+	for i := range g.Value {
+		for j := range g.Value[i] {
+			for u := range g.Value[i][j] {
+				x.poly(g.Value[i][j][u].Q)
+				x.poly(g.Value[i][j][u].P)
+			}
+		}
+	}
+}
+
+func c20SnapRGSW(rg *rgsw.Ciphertext) string {
+	var x c20Hasher
+	c20SnapGadget(&x, &rg.Value[0])
+	c20SnapGadget(&x, &rg.Value[1])
+	return fmt.Sprintf("%d/%d/%v/%x", rg.LevelQ(), rg.LevelP(), c20Shape(rg), x.h)
+}
+
+func c20SnapQP(p ringqp.Poly) string {
+	var x c20Hasher
+	x.poly(p.Q)
+	x.poly(p.P)
+	return fmt.Sprintf("%x", x.h)
+}
+
+func c20SnapPoly(p ring.Poly) string {
+	var x c20Hasher
+	x.poly(p)
+	return fmt.Sprintf("%d/%x", p.Level(), x.h)
+}
+
+// c20Unchanged emits the probe: every named snapshot is the same before and after.
+func c20Unchanged(c *Ctx, name, args, key string, before, after map[string]string) {
+	detail := ""
+	for k, v := range before {
+		if after[k] != v && detail == "" {
+			detail = fmt.Sprintf("operand %s was modified (%s -> %s)", k, v, after[k])
+		}
+	}
+	c.Probe(name, args, key, detail)
 }
